@@ -14,11 +14,16 @@ class Input:
 class RealInput(Input):
     def read_input(self, prompt):  # type: (str) -> str
         try:
-            return _my_input(prompt)
-        except UnicodeEncodeError:
-            # the prompt names a file whose name is not valid UTF-8
-            return _my_input(prompt.encode('utf-8', 'backslashreplace')
-                             .decode('utf-8'))
+            try:
+                return _my_input(prompt)
+            except UnicodeEncodeError:
+                # the prompt names a file whose name is not valid UTF-8
+                return _my_input(prompt.encode('utf-8', 'backslashreplace')
+                                 .decode('utf-8'))
+        except EOFError:
+            # the input ended (Ctrl-D, a pipe that dried up): no answer is
+            # no consent
+            return ''
 
 
 class HardCodedInput(Input):
